@@ -223,6 +223,21 @@ fn check_add(
             if rs >= 86_400 || rf >= 2_000_000_000 || (!leap && rf >= 1_000_000_000) {
                 fl.hit(c, "overflowing_add_signed built an invalid time (or a leap second out of nothing)", &format!("{} -> {rs} {rf}", desc()));
             }
+            // the difference rules against the addition rules (theorems diff_inverts_add_same_day / diff_after_add):
+            // (t + d) - t, plus the carry, is d — up to the one-second term of a leap operand left across midnight
+            match guard(|| r.signed_duration_since(t)) {
+                Ok(x) => {
+                    let err = if *carry == 0 { 0 } else { spec_diff_add_err(secs, frac, dn) };
+                    if td_ns(&x) + *carry as i128 * NS != dn + err {
+                        fl.hit(c, "(t + d) - t plus the carry is not d (difference rules inconsistent with the addition rules)",
+                            &format!("{} -> {rs} {rf} {carry}; difference back {} ns, expected error term {err}", desc(), td_ns(&x)));
+                    }
+                    if err != 0 {
+                        tl.add("add:(t+d)-t off by one second (leap operand left across midnight, time of day)");
+                    }
+                }
+                Err(()) => fl.hit(c, "signed_duration_since panicked", &desc()),
+            }
         }
         Err(()) => fl.hit(c, "overflowing_add_signed panicked", &desc()),
     }
